@@ -137,7 +137,7 @@ Proof.
   intros Hs. split.
   - intros H. destruct (search_max l k y Hs H) as [H1 [H2 H3]]. split; [|exact H2]. split; [exact H1|]. split; [|exact H3].
     apply r_contains_spec in H2. apply H2.
-  - intros [[H1 [H2 H3]] H4]. unfold search.
+  - intros [[H1 [H2 H3]] H4]. unfold search. cbn [andb].
     assert (Hy : In y (le_items l k)) by (apply filter_In; split; assumption).
     destruct (sorted_max_last (le_items l k) y (filter_sorted _ _ Hs) Hy) as [rest Hr].
     { intros z Hz. apply filter_In in Hz. apply H3; tauto. }
@@ -216,7 +216,7 @@ Proof.
 Qed.
 Lemma search_map g l k : same_shape g -> search (map g l) k false = option_map g (search l k false).
 Proof.
-  intros Hg. unfold search, le_items.
+  intros Hg. unfold search, le_items. cbn [andb].
   assert (Hf : filter (fun r => lex_leb (r_start r) k) (map g l) = map g (filter (fun r => lex_leb (r_start r) k) l)).
   { induction l as [|x t IH]; [reflexivity|]. cbn [map filter]. destruct (Hg x) as [_ [-> _]].
     destruct (lex_leb (r_start x) k); [cbn [map]; rewrite IH; reflexivity|exact IH]. }
